@@ -332,6 +332,47 @@ def hyp_losses(case):
   return {'evals': evals, 'nontrivial': True, 'outcome': [loss, reg, sizes], 'keys': [[loss, reg, sizes, g] for g in geoms]}
 
 
+def reg_sequence(case):
+  """History on the jit caches: regularizers built one after another that differ only in the VALUES of their centre /
+  per-parameter weights (same weight, same shapes) - each evaluation must use ITS regularizer."""
+  import fedjax
+  import jax
+  import jax.numpy as jnp
+  loss, n = case['loss'], case['N']
+  per_ex, _, _, _, _ = impl(loss, 'none')
+  ex = data(n, case.get('seed', 0))
+  rng = jax.random.PRNGKey(1)
+  centers = [{'w': np.array([0.25, 0.25]), 'b': np.array(1.0)}, {'w': np.array([-1.0, 2.0]), 'b': np.array(-0.5)},
+             {'w': np.array([0.0, 0.0]), 'b': np.array(3.0)}]
+  pweights = [{'w': np.array([1.0, 2.0]), 'b': np.array(0.5)}, {'w': np.array([3.0, 0.25]), 'b': np.array(2.0)}]
+  evals = 0
+  p = W0
+  regs = [('center', c) for c in centers] + [('weights', w) for w in pweights]
+  for kind, val in regs:
+    nc = dict(case, reg=[kind, {k: np.asarray(v).tolist() for k, v in val.items()}])
+    if kind == 'center':
+      regz = fedjax.regularizers.l2_regularizer(0.125, center_params=jparams(val))
+      rv = 0.125 * (np.sum((p['w'] - val['w']) ** 2) + (p['b'] - val['b']) ** 2)
+      rg = {'w': 0.25 * (p['w'] - val['w']), 'b': 0.25 * (p['b'] - val['b'])}
+    else:
+      regz = fedjax.regularizers.l2_regularizer(0.125, params_weights=jparams(val))
+      rv = 0.125 * (np.sum(val['w'] * p['w'] ** 2) + val['b'] * p['b'] ** 2)
+      rg = {'w': 0.25 * val['w'] * p['w'], 'b': 0.25 * val['b'] * p['b']}
+    l, _ = ref_losses(loss, p, ex)
+    want = (float(l.mean()) if len(l) else 0.0) + float(rv)
+    for bs, k in ((2, 1), (4, 2)):
+      got = fedjax.evaluate_average_loss(jparams(p), _padded(ex, bs, k), rng, per_ex, regz)
+      cmp_scalar(got, want, 'evaluate_average_loss with regularizer #%d of the sequence' % evals, nc)
+      ale = fedjax.AverageLossEvaluator(per_ex, regz)
+      res = dict(ale.evaluate_global_params(jparams(p), [(b'a', _padded(ex, bs, k), jax.random.PRNGKey(2))]))
+      cmp_scalar(res[b'a'], want, 'AverageLossEvaluator with regularizer #%d of the sequence' % evals, nc)
+    g = fedjax.grad(per_ex, regz)(jparams(p), {'x': ex['x'], 'y': ex['y']}, rng)
+    base = ref_grad(loss, 'none', p, ex)
+    cmp_tree(g, {kk: base[kk] + rg[kk] for kk in base}, 'fedjax.grad with regularizer #%d of the sequence' % evals, nc)
+    evals += 1
+  return {'evals': evals, 'nontrivial': True, 'outcome': [loss, n]}
+
+
 def mime_server_grad(case):
   """The full-batch server gradient that the Mime algorithm itself derives (read off the new parameters of a
   round with plain SGD and one local step: w' = w - server_lr * lr * c) for several padded geometries."""
@@ -357,6 +398,8 @@ def mime_server_grad(case):
                               regularizer=regz)
     alg = _CACHE[key]
     clients = [(b'c%d' % i, fedjax.ClientDataset(ex), jax.random.PRNGKey(i)) for i, ex in enumerate(exs)]
+    from mc import algos
+    algos.aborted_round(alg, alg.init(jparams(W0)), clients)  # a round that fails at its last client, then the real one
     st, _ = alg.apply(alg.init(jparams(W0)), clients)
     if want_c is None:
       for kk in ('w', 'b'):
@@ -370,7 +413,7 @@ def mime_server_grad(case):
   return {'evals': evals, 'nontrivial': True, 'outcome': [loss, reg, sizes], 'keys': [[loss, reg, sizes, g] for g in geoms]}
 
 
-SUBS = {'mime_server_grad': mime_server_grad, 'grad_masks': grad_masks, 'avg_loss': avg_loss, 'mime_grads': mime_grads, 'agnostic_domain': agnostic_domain,
+SUBS = {'reg_sequence': reg_sequence, 'mime_server_grad': mime_server_grad, 'grad_masks': grad_masks, 'avg_loss': avg_loss, 'mime_grads': mime_grads, 'agnostic_domain': agnostic_domain,
         'hyp_losses': hyp_losses}
 TIMEOUTS = {k: 1200 for k in SUBS}
 
@@ -393,6 +436,7 @@ def plan(ctx):
   tuples = [[0], [3], [5], [2, 0, 3], [1, 4], [0, 0]] if th else [[3], [2, 0, 3], [0, 0]]
   ctx.pmap('mime_grads', [{'loss': l, 'reg': r, 'sizes': t, 'seed': s} for l in ('sq', 'abs') for r in regs for t in tuples],
            chunk=2)
+  ctx.pmap('reg_sequence', [{'loss': l, 'N': n, 'seed': s} for l in ('sq', 'abs') for n in (0, 3, 5)], chunk=1)
   ctx.pmap('mime_server_grad', [{'loss': l, 'reg': r, 'sizes': t, 'seed': s} for l in ('sq',) for r in ('none', 'l2', 'l2c')
                                 for t in ([3], [2, 0, 3], [0, 0], [5, 1])], chunk=1)
   ctx.pmap('agnostic_domain', [{'loss': l, 'sizes': t, 'num_domains': nd, 'seed': s} for l in ('sq', 'abs')
